@@ -41,6 +41,8 @@ func (fc *FnCtx) loopMods(l *Loop) map[string]bool {
 				if sl, ok := x.Type().Underlying().(*types.Slice); ok {
 					addTypeHeaps("A."+typeName(sl.Elem()), sl.Elem(), mods)
 				}
+			case *ssa.MapUpdate:
+				mods["MS."+typeName(x.Map.Type())] = true
 			case *ssa.RunDefers:
 				mods["*"] = true
 			case ssa.CallInstruction:
@@ -121,6 +123,10 @@ func (fc *FnCtx) callMods(c *ssa.CallCommon) map[string]bool {
 				if sl, ok := c.Args[0].Type().Underlying().(*types.Slice); ok {
 					addTypeHeaps("A."+typeName(sl.Elem()), sl.Elem(), mods)
 				}
+			}
+		case "delete":
+			if len(c.Args) > 0 {
+				mods["MS."+typeName(c.Args[0].Type())] = true
 			}
 		}
 		return mods
